@@ -207,104 +207,99 @@ func (ex *Exec) appendOp(fr *frame, b *ssa.Builtin, args []Value) Value {
 	return ns
 }
 
-// ---- goroutines, channels, select (Layer 1: run-to-completion coroutines) ---
+// ---- channels, select (blocking via the coroutine scheduler) ---------------------
 
-// runPending runs every queued goroutine to completion, FIFO.
-func (ex *Exec) runPending() {
-	for len(ex.pending) > 0 {
-		g := ex.pending[0]
-		ex.pending = ex.pending[1:]
-		ex.runGoroutine(g)
-	}
-}
-
-func (ex *Exec) runGoroutine(g *pendingGo) {
-	savedG := ex.curG
-	ex.curG = g.id
-	defer func() {
-		ex.curG = savedG
-		if r := recover(); r != nil {
-			if gp, ok := r.(*goPanic); ok {
-				// an uncaught panic in a goroutine kills the process
-				ex.X.escapedPanic(ex, gp, "goroutine "+g.site)
-				return
-			}
-			panic(r)
-		}
-	}()
-	ex.call(nil, g.fn, g.args, nil)
-}
+// runPending lets all other goroutines run until they finish or block.
+func (ex *Exec) runPending() { ex.settle() }
 
 func (ex *Exec) chanSend(fr *frame, c *Chan, v Value) {
+	ex.yieldPoint()
 	if c.C == nil {
-		ex.abort("blocked", "send on nil channel at "+ex.where(fr))
+		ex.block(func() bool { return false }, "send on nil channel")
 	}
-	if c.C.Closed {
+	ch := c.C
+	if ch.Closed {
 		ex.goPanicRuntime("send on closed channel")
 	}
-	if len(c.C.Buf) >= c.C.Cap && !ex.X.UnboundedChans {
-		ex.runPending()
-		if len(c.C.Buf) >= c.C.Cap {
-			ex.abort("blocked", fmt.Sprintf("send on full channel (cap %d) at %s", c.C.Cap, ex.where(fr)))
-		}
+	if ch.Cap == 0 && !ex.X.UnboundedChans {
+		// rendezvous: hand the value to a parked receiver
+		ch.Buf = append(ch.Buf[:len(ch.Buf):len(ch.Buf)], v)
+		ch.sendWaiting++
+		n := ch.taken
+		ex.block(func() bool { return ch.taken > n || ch.Closed }, "send on unbuffered channel")
+		ch.sendWaiting--
+		return
 	}
-	c.C.Buf = append(c.C.Buf[:len(c.C.Buf):len(c.C.Buf)], v)
+	ex.block(func() bool { return len(ch.Buf) < ch.Cap || ex.X.UnboundedChans || ch.Closed }, fmt.Sprintf("send on full channel (cap %d)", ch.Cap))
+	if ch.Closed {
+		ex.goPanicRuntime("send on closed channel")
+	}
+	ch.Buf = append(ch.Buf[:len(ch.Buf):len(ch.Buf)], v)
 }
 
 func (ex *Exec) chanRecv(fr *frame, c *Chan) (Value, bool) {
+	ex.yieldPoint()
 	if c.C == nil {
-		ex.abort("blocked", "receive on nil channel at "+ex.where(fr))
+		ex.block(func() bool { return false }, "receive on nil channel")
 	}
-	if len(c.C.Buf) == 0 && !c.C.Closed {
-		ex.runPending()
-	}
-	if len(c.C.Buf) > 0 {
-		v := c.C.Buf[0]
-		c.C.Buf = c.C.Buf[1:]
+	ch := c.C
+	ex.block(func() bool { return len(ch.Buf) > 0 || ch.Closed }, "receive on empty channel")
+	if len(ch.Buf) > 0 {
+		v := ch.Buf[0]
+		ch.Buf = ch.Buf[1:]
+		ch.taken++
 		return v, true
 	}
-	if c.C.Closed {
-		return ex.zero(c.C.ET), false
-	}
-	ex.abort("blocked", "receive on empty channel at "+ex.where(fr))
-	return nil, false
+	return ex.zero(ch.ET), false
 }
 
 func (ex *Exec) selectOp(fr *frame, in *ssa.Select) Value {
+	ex.yieldPoint()
 	// result tuple: (index int, recvOk bool, r_0 T_0, ... r_n-1 T_n-1)
-	try := func() (int, Value, bool, bool) {
+	ready := func() []int {
+		var rs []int
 		for i, st := range in.States {
 			c := ex.get(fr, st.Chan).(*Chan)
 			if c.C == nil {
 				continue
 			}
 			if st.Dir == types.SendOnly {
-				if c.C.Closed {
-					ex.goPanicRuntime("send on closed channel")
+				if c.C.Closed || len(c.C.Buf) < c.C.Cap || ex.X.UnboundedChans {
+					rs = append(rs, i)
 				}
-				if len(c.C.Buf) < c.C.Cap || ex.X.UnboundedChans {
-					c.C.Buf = append(c.C.Buf[:len(c.C.Buf):len(c.C.Buf)], ex.get(fr, st.Send))
-					return i, nil, false, true
-				}
-			} else {
-				if len(c.C.Buf) > 0 {
-					v := c.C.Buf[0]
-					c.C.Buf = c.C.Buf[1:]
-					return i, v, true, true
-				}
-				if c.C.Closed {
-					return i, ex.zero(c.C.ET), false, true
-				}
+			} else if len(c.C.Buf) > 0 || c.C.Closed {
+				rs = append(rs, i)
 			}
 		}
-		return -1, nil, false, false
+		return rs
 	}
-	idx, rv, rok, ready := try()
-	if !ready && in.Blocking {
-		ex.runPending()
-		idx, rv, rok, ready = try()
-		if !ready {
-			ex.abort("blocked", "select with no ready case at "+ex.where(fr))
+	rs := ready()
+	if len(rs) == 0 && in.Blocking {
+		ex.block(func() bool { return len(ready()) > 0 }, "select with no ready case")
+		rs = ready()
+	}
+	idx := -1
+	var rv Value
+	rok := false
+	if len(rs) > 0 {
+		idx = rs[0]
+		if len(rs) > 1 && ex.X.SchedExplore {
+			// Go picks a ready case at random: every choice is a legal behaviour
+			idx = rs[ex.schedChoice(len(rs))]
+		}
+		st := in.States[idx]
+		c := ex.get(fr, st.Chan).(*Chan)
+		if st.Dir == types.SendOnly {
+			if c.C.Closed {
+				ex.goPanicRuntime("send on closed channel")
+			}
+			c.C.Buf = append(c.C.Buf[:len(c.C.Buf):len(c.C.Buf)], ex.get(fr, st.Send))
+		} else if len(c.C.Buf) > 0 {
+			rv, rok = c.C.Buf[0], true
+			c.C.Buf = c.C.Buf[1:]
+			c.C.taken++
+		} else {
+			rv, rok = ex.zero(c.C.ET), false
 		}
 	}
 	res := Tuple{ex.i64(int64(idx)), ex.B.Bool(rok)}
